@@ -18,6 +18,7 @@ mod oneshot;
 mod prims;
 mod replay;
 mod rows;
+mod shardsdrv;
 mod threads;
 
 use std::collections::HashMap;
@@ -79,6 +80,7 @@ fn main() {
         "threads-child" => threads::child(&args),
         "dispatch" => dispatch::main(&args),
         "prims" => prims::main(&args),
+        "shards" => shardsdrv::main(&args),
         "replay" => replay::main(&args),
         "freewalk" => replay::main_free(&args),
         "replay-script" => replay::main_script(&args),
